@@ -6,7 +6,8 @@ from ..poly import Poly
 S_RULES = ['S-matmul', 'S-einsum', 'S-einsum-out', 'S-tensordot', 'S-concat',
            'S-reshape', 'S-bcast', 'S-store', 'S-slot', 'S-ndim', 'S-solve',
            'S-square', 'S-index', 'S-unpack', 'S-axis', 'S-transpose',
-           'S-item', 'S-choice', 'S-ravel', 'S-kind', 'S-bigprod', 'X-arity',
+           'S-item', 'S-choice', 'S-ravel', 'S-kind', 'S-bigprod', 'S-bitwidth',
+           'X-arity',
            'X-name']
 
 
